@@ -155,6 +155,7 @@ func run(ctx *core.Ctx, in input) error {
 		facts["nested"] = true
 		ctx.Sink.Count("callbacks=nested_streams")
 	}
+	orig := in // what is recorded for replay (before the key name is padded)
 	if in.Kind == "enc" && in.HeaderLen > 0 {
 		o := *in.Opts
 		if in.LongDec {
@@ -184,7 +185,7 @@ func run(ctx *core.Ctx, in input) error {
 			// observed; nothing Encrypt decides at that point depends on its value, only on its 7 bytes
 			res.Np = make([]byte, 7)
 		}
-		c := hx.Case{Kind: "enc", Input: hx.MustJSON(in), Facts: facts}
+		c := hx.Case{Kind: "enc", Input: hx.MustJSON(orig), Facts: facts}
 		c.Class = fmt.Sprintf("enc/%s/%s/%s/%s/%s", encx.LenClass(len(p)), cphName(in.Opts), in.Opts.Alg,
 			in.Opts.KnCombo(), in.Script.Shape())
 		c.Trivial = false
@@ -242,7 +243,7 @@ func run(ctx *core.Ctx, in input) error {
 			docsrc = fmt.Sprintf("(DSpec %s %s %s %s %d %s)", encx.GoStyle(m.K == "").Coq(), m.Coq(), hx.CoqBytes(res.Fk),
 				in.P.Coq(), len(res.Doc), hx.CoqBytes(d[:]))
 		}
-		addDec(ctx, in, "dec-go", docsrc, m, tbl, sc2, res.Fk, dres, len(p))
+		addDec(ctx, orig, "dec-go", docsrc, m, tbl, sc2, res.Fk, dres, len(p))
 	case "spec":
 		p := in.P.Bytes()
 		sty := encx.GoStyle(in.M.K == "")
@@ -272,7 +273,7 @@ func run(ctx *core.Ctx, in input) error {
 		facts["style"] = sty.Name()
 		ctx.Sink.Count(fmt.Sprintf("spec/style=esc%d/ws%v/go_order%v", sty.Esc, len(sty.Ws) > 0,
 			strings.Join(sty.Order, ",") == strings.Join(encx.GoStyle(in.M.K == "").Order, ",")))
-		addDec(ctx, in, "dec-spec", docsrc, *in.M, tbl, sc, in.Fk, dres, len(p))
+		addDec(ctx, orig, "dec-spec", docsrc, *in.M, tbl, sc, in.Fk, dres, len(p))
 	case "file":
 		doc, err := os.ReadFile(filepath.Join(encx.RepoDir(), "schemes", "enc", "v1", "testdata", in.File))
 		if err != nil {
@@ -296,7 +297,7 @@ func run(ctx *core.Ctx, in input) error {
 		docsrc := fmt.Sprintf("(DSpec %s %s %s %s %d %s)", encx.GoStyle(m.K == "").Coq(), m.Coq(), hx.CoqBytes(fk), in.P.Coq(),
 			len(doc), hx.CoqBytes(d[:]))
 		facts["file"] = in.File
-		addDec(ctx, in, "dec-file", docsrc, m, tbl, sc, fk, dres, len(in.P.Bytes()))
+		addDec(ctx, orig, "dec-file", docsrc, m, tbl, sc, fk, dres, len(in.P.Bytes()))
 	default:
 		return fmt.Errorf("c01: bad kind %q", in.Kind)
 	}
